@@ -267,6 +267,34 @@ pub fn c02(c: &mut Ctx, b: &Budget) {
                 }
             }
         }
+        // twin assertions - one predicate and object, decorated differently (salted twice, bare and salted, bare and annotated): the
+        // subject-level operations re-attach every assertion element and must not take one twin for the other
+        if i % 4 == 3 {
+            let base = crate::props4::base_envelope(c, 1);
+            let (p, o) = (format!("p{}", i % 5), format!("o{}", i % 3));
+            let twins = match (i / 4) % 3 {
+                0 => base.add_assertion_salted(p.as_str(), o.as_str(), true).add_assertion_salted(p.as_str(), o.as_str(), true),
+                1 => base.add_assertion(p.as_str(), o.as_str()).add_assertion_salted(p.as_str(), o.as_str(), true),
+                _ => base.add_assertion(p.as_str(), o.as_str()).add_assertion_envelope(Envelope::new_assertion(p.as_str(), o.as_str()).add_assertion("since", 2020)).unwrap(),
+            };
+            let key = bc_components::SymmetricKey::from_data_ref(hex::decode(KEY1).unwrap()).unwrap();
+            if !twins.subject().is_encrypted() && !twins.subject().is_elided() && !twins.subject().is_compressed() {
+                let r0 = crate::props4::import(c, &twins);
+                let _ = r0;
+                let results: Vec<(&str, Result<Envelope, String>)> = vec![
+                    ("compress_subject", crate::interp::guarded(|| twins.compress_subject().unwrap())),
+                    ("encrypt_subject", crate::interp::guarded(|| twins.encrypt_subject(&key).unwrap())),
+                    ("elide subject", crate::interp::guarded(|| twins.elide_removing_target(&twins.subject()))),
+                ];
+                for (name, r) in results {
+                    match r {
+                        Ok(res) => { let v = check_positions(&twins, &res); c.check("digests-preserved", v.is_ok() && res.assertions().len() == twins.assertions().len(), "digests-preserved", || format!("{} on an envelope with twin assertions: {} -> {}", name, shape(&twins), shape(&res))); }
+                        Err(site) => c.check("no-panic", false, "operation-under-test-returns", || format!("{} panicked at {}", name, site)),
+                    }
+                }
+                c.count("branch:twin-assertions");
+            }
+        }
         // whole-envelope encrypt: digest of the wrapped original - also when the original is itself a bare wrapper
         for input in [cur.clone(), c.assign(&format!("wrap {}", cur)), { let w = c.assign(&format!("wrap {}", cur)); c.assign(&format!("wrap {}", w)) }] {
             if i % 5 != 0 && input == cur { continue; }
@@ -357,6 +385,22 @@ pub fn c05(c: &mut Ctx, b: &Budget) {
         let mut cur = gen_env(c, &cfg, 3);
         if i % 2 == 0 { for _ in 0..c.rng.range(1, 3) { let n = gen_obscure(c, &cur); if c.is_ok(&n) { cur = n; } } }
         roundtrip(c, &cur);
+        c.end();
+    }
+    // compressed elements whose content is extremely redundant (ratios of 100:1, 1000:1 and beyond), alone and inside a structure
+    {
+        c.begin("roundtrip-highly-compressible");
+        let payloads: Vec<CBOR> = vec![CBOR::to_byte_string(vec![0u8; 8192]), "abc".repeat(4000).as_str().into(), "-".repeat(20000).as_str().into(), CBOR::to_byte_string(vec![0x5au8; 300_000]), "".into(), "a".into()];
+        for p in payloads {
+            let l = c.assign(&format!("leaf {}", hex::encode(p.to_cbor_data())));
+            let z = c.assign(&format!("compress {}", l));
+            roundtrip(c, &z);
+            let pr = c.assign("leaf 626470"); let a = c.assign(&format!("assertion {} {}", pr, z)); let s0 = c.assign("leaf 01");
+            let host = c.assign(&format!("add {} {}", s0, a));
+            roundtrip(c, &host);
+            let zz = c.assign(&format!("compress {}", host));
+            roundtrip(c, &zz);
+        }
         c.end();
     }
     // decoding must not depend on what was decoded before: a long run of rejected inputs (nested, so that the error passes through
@@ -595,6 +639,69 @@ pub fn c07(c: &mut Ctx, b: &Budget) {
         c.end();
     }
     unordered_collections(c, b);
+    near_equal_digests(c, b);
+    replace_subject_overlap(c, b);
+}
+
+/// `replace_subject` with a new subject that is a node already holding some of the receiver's assertions (or the receiver itself):
+/// the result is the new subject with the receiver's assertions added - an assertion present on both sides stays once
+fn replace_subject_overlap(c: &mut Ctx, b: &Budget) {
+    let cfg = GenCfg::default();
+    for r in 0..(if b.thorough { 60 } else { 15 }) {
+        c.begin("replace-subject-overlap");
+        let s1 = gen_leaf(c, &cfg); let s2 = gen_leaf(c, &cfg);
+        let pool: Vec<String> = (0..4).map(|_| gen_assertion(c, &cfg, 1)).collect();
+        let mut x = s1.clone(); let mut y = s2.clone();
+        for (k, a) in pool.iter().enumerate() {
+            if (r + k) % 3 != 2 { let n = c.assign(&format!("add {} {}", x, a)); if c.is_ok(&n) { x = n; } }
+            if (r + k) % 2 == 0 { let n = c.assign(&format!("add {} {}", y, a)); if c.is_ok(&n) { y = n; } }
+        }
+        let y = if r % 5 == 0 { x.clone() } else { y };
+        let res = c.assign(&format!("replace_subject {} {}", x, y));
+        observe_env(c, &res, true);
+        if let (Some(xe), Some(ye), Some(re)) = (c.env(&x), c.env(&y), c.env(&res)) {
+            let want = xe.assertions().into_iter().fold(ye.clone(), |acc, a| acc.add_assertion_envelope(a).unwrap());
+            c.check("replace-subject-is-add-all", re.is_identical_to(&want) && re.tagged_cbor().to_cbor_data() == want.tagged_cbor().to_cbor_data(), "replace-subject-overlap", || format!("{} onto {} gave {} instead of {}", shape(&xe), shape(&ye), shape(&re), shape(&want)));
+            let g = check_grammar(&re); c.check("grammar", g.is_ok(), "grammar", || g.unwrap_err());
+            let sd = check_spec_digests(&re); c.check("spec-digest", sd.is_ok(), "spec-digest", || sd.unwrap_err());
+            roundtrip(c, &res);
+            if r % 5 == 0 { c.check("replace-subject-by-itself", re.is_identical_to(&xe), "replace-subject-overlap", || format!("x.replace_subject(x) changed {} into {}", shape(&xe), shape(&re))); }
+        }
+        c.end();
+    }
+}
+
+/// elements whose digests share a long prefix (elided elements carry whatever digest their producer wrote): ordering and duplicate
+/// detection look at all 32 bytes
+fn near_equal_digests(c: &mut Ctx, b: &Budget) {
+    for r in 0..(if b.thorough { 40 } else { 10 }) {
+        c.begin("near-equal-digests");
+        let base = c.rng.bytes(32);
+        let mut ds: Vec<Vec<u8>> = vec![];
+        for k in 0..c.rng.range(2, 5) {
+            let mut d = base.clone();
+            // differ first at byte `at` (8, 16, 24, 31 and random spots), in ascending and descending directions
+            let at = [8usize, 16, 24, 31, 1, 0][(r + k) % 6].min(31);
+            d[at] = d[at].wrapping_add(1 + k as u8 * 7);
+            for j in (at + 1)..32 { d[j] = c.rng.below(256) as u8; }
+            if !ds.contains(&d) { ds.push(d); }
+        }
+        let s = c.assign("leaf 6173");
+        let regs: Vec<String> = ds.iter().map(|d| { let mut v = vec![0xd8, 0xc8, 0x58, 0x20]; v.extend_from_slice(d); c.assign(&format!("decode {}", hex::encode(v))) }).collect();
+        let mut results = vec![];
+        for _ in 0..4 {
+            let mut order = regs.clone(); c.rng.shuffle(&mut order);
+            let mut e = s.clone();
+            for a in &order { e = c.assign(&format!("add {} {}", e, a)); }
+            observe_env(c, &e, true);
+            roundtrip(c, &e);
+            results.push(e);
+        }
+        let envs: Vec<Envelope> = results.iter().filter_map(|r| c.env(r)).collect();
+        c.check("order-independent", envs.len() == results.len() && envs.windows(2).all(|w| w[0].is_identical_to(&w[1]) && w[0].tagged_cbor().to_cbor_data() == w[1].tagged_cbor().to_cbor_data()), "order-dependent", || format!("elided assertions with digests sharing a prefix, added in different orders: {}", envs.iter().map(shape).collect::<Vec<_>>().join(" | ")));
+        if let Some(x) = envs.first() { let r = check_spec_digests(x); c.check("spec-digest", r.is_ok(), "spec-digest", || r.unwrap_err()); let g = check_grammar(x); c.check("grammar", g.is_ok(), "grammar", || g.unwrap_err()); }
+        c.end();
+    }
 }
 
 /// C07 (second half): equal unordered collections give equal leaves
@@ -740,6 +847,26 @@ pub fn c06(c: &mut Ctx, b: &Budget) {
         let bs = CBOR::to_byte_string(item.clone()).to_cbor_data();
         let mut embedded = vec![0xd8, 0xc8, 0xd8, 0x18]; embedded.extend_from_slice(&bs);
         decode_case(c, "legacy-tag", "legacy-24-embedded-bytes", &embedded);
+    }
+    // rejected inputs whose *content* is awkward to describe: an unknown tag (and the other refusals) around long texts with
+    // multi-byte characters at every offset, long byte strings, deep arrays - whatever an error message might quote or measure
+    {
+        let fillers = ["é", "€", "😀", "ｅ"];
+        for pre in (0..70).step_by(if b.thorough { 1 } else { 3 }) {
+            for f in fillers.iter().take(if b.thorough { 4 } else { 2 }) {
+                let text = format!("{}{}", "a".repeat(pre), f.repeat(12));
+                let item = CBOR::from(text.as_str()).to_cbor_data();
+                for tag in [99u64, 40001, 4] {
+                    let mut v = vec![0xd8, 0xc8]; v.extend_from_slice(&CBOR::to_tagged_value(tag, CBOR::try_from_data(&item).unwrap()).to_cbor_data());
+                    decode_case(c, "awkward-content", "unknown-tag-around-non-ascii-text", &v);
+                }
+                // the text itself where an element is expected (not an envelope), and as a map key / array item of a refused shape
+                let mut v = vec![0xd8, 0xc8]; v.extend_from_slice(&item); decode_case(c, "awkward-content", "bare-non-ascii-text", &v);
+                let mut v = vec![0xd8, 0xc8, 0xa2]; v.extend_from_slice(&item); v.push(0x01); v.extend_from_slice(&[0x02, 0x03]); decode_case(c, "awkward-content", "two-entry-map-with-text-key", &v);
+                let mut v = vec![0xd8, 0xc8, 0x81]; v.extend_from_slice(&item); decode_case(c, "awkward-content", "one-element-array-of-text", &v);
+            }
+        }
+        for n in [33usize, 40, 41, 64, 255, 256, 1000] { let mut v = vec![0xd8, 0xc8]; v.extend_from_slice(&CBOR::to_tagged_value(99u64, CBOR::to_byte_string(vec![0xc3u8; n])).to_cbor_data()); decode_case(c, "awkward-content", "unknown-tag-around-bytes", &v); }
     }
     // encodings spliced from pieces of valid ones: any envelope / a node with a non-assertion subject in an assertion slot, a
     // repeated element, descending order, an obscured element out of place
